@@ -2,13 +2,15 @@ SPECIFICATION Spec
 CONSTANTS
   Inst = {a, b}
   Shard = {11, 21}
-  MaxStreams = 3
-  MaxEnv = 4
+  MaxStreams = 2
+  MaxEnv = 2
   MaxMsg = 2
   AllowHold = FALSE
   AllowBreak = FALSE
   AllowStall = TRUE
   Cap = 1
+  AllowTopo = FALSE
+  Warm = TRUE
   AllowRemove = FALSE
   FixSenderPrune = TRUE
   FixGuardedDelete = TRUE
